@@ -287,6 +287,8 @@ int main(int argc, char **argv) {
       dup2(fd, 1); dup2(fd, 2); close(fd);
       close(0); open("/dev/null", O_RDONLY);
       if (!vh_parse_gc(gcspec)) _exit(5);
+      /* watchdog: a child that makes no progress (e.g. a scheduler livelock) dies by SIGALRM */
+      alarm(getenv("VERIF_ALARM") ? atoi(getenv("VERIF_ALARM")) : 600);
       vh_budget = budget;
       if (strcmp(sched, "-")) ts_parse_schedule(sched);
       vh_alloc_count = 0;
